@@ -13,11 +13,14 @@ from ..ref import rfile, rops
 from .. import lib
 
 
-def offset_file(rf, off):
-    """distinct conforming file: every non-coordinate numeric value shifted"""
+def offset_file(rf, off, stackdim=None):
+    """distinct conforming file: every numeric value shifted, except coordinate
+    variables along the stack dimension (they must stay monotone)"""
     o = rf.copy()
     for k, v in o.vars.items():
-        if k in o.coords or v.data.dtype.kind not in 'fiu':
+        if v.data.dtype.kind not in 'fiu':
+            continue
+        if k in o.coords and (stackdim is None or stackdim in v.dims):
             continue
         v.data = (v.data + np.asarray(off).astype(v.data.dtype)).astype(v.data.dtype)
     return o
@@ -99,7 +102,8 @@ class Prop(core.Prop):
         if form == 'pncmfopen':
             paths = []
             for i, r in enumerate(reals):
-                p = os.path.join(self.tmp, 'p%d_%d.nc' % (os.getpid(), i))
+                # argument order deliberately differs from lexicographic order
+                p = os.path.join(self.tmp, 'p%d_%d.nc' % (os.getpid(), 9 - i))
                 if os.path.exists(p):
                     os.unlink(p)
                 r.save(p, format='NETCDF4_CLASSIC', verbose=0).close()
@@ -134,7 +138,7 @@ class Prop(core.Prop):
                 offs = offs[::-1]
             for i, n in enumerate(case['dlens']):
                 rec = dict(base, lens=dict(base['lens'], **{d: n}))
-                rfs.append(offset_file(rfile.ufile(rec), 100000 * offs[i]))
+                rfs.append(offset_file(rfile.ufile(rec), 100000 * offs[i], d))
             reals = [lib.to_real(r) for r in rfs]
             pieces_r = [lib.snap(r, cls='PseudoNetCDFFile') for r in reals]
             before = h64(*[rfile.canon(p) for p in pieces_r])
